@@ -759,8 +759,13 @@ fn check_string(cx: &mut Ctx, stream: &str, kind: &str, s: &str, near_valid: boo
     cx.rep.case(&format!("{kind}|{s}"), accepted || (near_valid && !s.is_empty()));
     cx.rep.hit(&format!("str {kind} {}", if accepted { "ok" } else { &io }));
     cx.rep.hit(&format!("stream {stream}"));
-    if accepted && cx.rep.samples.len() < 4 && stream == "mutation" {
-        cx.rep.sample(json!({"kind": kind, "string": s, "impl": io, "model": mo}));
+    if stream == "mutation" && matches!(kind, "sock" | "txt" | "addr") && s.len() > 20 {
+        // one accepted and one rejected single-edit mutant per kind
+        let tag = format!("sampled {kind} {}", if accepted { "ok" } else { "err" });
+        if !cx.rep.distribution.contains_key(&tag) && cx.rep.samples.len() < 6 {
+            cx.rep.hit(&tag);
+            cx.rep.sample(json!({"stream": stream, "kind": kind, "string": s, "impl": io, "model": mo, "spelling_oracle": spell(kind, s)}));
+        }
     }
     if cx.lean.differs(&mo, &io) {
         let lean = &mut cx.lean;
@@ -784,6 +789,9 @@ fn check_string(cx: &mut Ctx, stream: &str, kind: &str, s: &str, near_valid: boo
         // hypotheses the theorems put on the IP codec, checked on std itself
         if kind == "ip4" && !s.chars().all(|c| c.is_ascii_digit() || c == '.') {
             cx.rep.spec_fail("C15:codec-hypothesis", "std accepts an IPv4 text with a character outside [0-9.]", json!({"string": s}));
+        }
+        if kind == "ip4" && Ipv6Addr::from_str(s).is_ok() {
+            cx.rep.spec_fail("C15:codec-hypothesis", "std reads the same text as an IPv4 and as an IPv6 address", json!({"string": s}));
         }
         if kind == "ip6" && !s.chars().all(|c| c.is_ascii_hexdigit() || c == ':' || c == '.') {
             cx.rep.spec_fail("C15:codec-hypothesis", "std accepts an IPv6 text with a character outside [0-9a-fA-F:.]", json!({"string": s}));
@@ -845,7 +853,7 @@ fn check_value(cx: &mut Ctx, v: &Val) {
                 cx.rep.spec_fail(&format!("C15:{kind}:serde-roundtrip"), &format!("deserialising the displayed form {disp:?} gives `{d}`"), json!({"kind": kind, "value": canon}));
             }
         }
-        if cx.rep.samples.len() < 2 && matches!(kind, "sock" | "txt") {
+        if cx.rep.samples.len() < 2 && matches!(kind, "sock" | "txt") && disp.len() > 30 && disp.contains("::") {
             cx.rep.sample(json!({"kind": kind, "value": canon, "display": disp, "model_display_hex": md, "reparsed": io}));
         }
     }
